@@ -482,14 +482,16 @@ def render_dependencies(content: TContent, type: RenderType = "document") -> TCo
     # then try to insert the JS scripts at the end of <body> and CSS sheets at the end
     # of <head>
     if type == "document" and (not did_find_js_placeholder or not did_find_css_placeholder):
+        # NOTE: We search and insert on bytes, so that content in other encodings than UTF-8
+        #       (e.g. a response with `charset=latin-1`) is left as is.
         maybe_transformed = _insert_js_css_to_default_locations(
-            content_.decode(),
-            css_content=None if did_find_css_placeholder else css_dependencies.decode(),
-            js_content=None if did_find_js_placeholder else js_dependencies.decode(),
+            content_,
+            css_content=None if did_find_css_placeholder else css_dependencies,
+            js_content=None if did_find_js_placeholder else js_dependencies,
         )
 
         if maybe_transformed is not None:
-            content_ = maybe_transformed.encode()
+            content_ = maybe_transformed
 
     # In case of a fragment, we only append the JS (actually JSON) to trigger the call of dependency-manager
     if type == "fragment":
@@ -902,14 +904,14 @@ def _gen_exec_script(
     return exec_script
 
 
-head_or_body_end_tag_re = re.compile(r"<\/(?:head|body)\s*>", re.DOTALL)
+head_or_body_end_tag_re = re.compile(rb"<\/(?:head|body)\s*>", re.DOTALL)
 
 
 def _insert_js_css_to_default_locations(
-    html_content: str,
-    js_content: Optional[str],
-    css_content: Optional[str],
-) -> Optional[str]:
+    html_content: bytes,
+    js_content: Optional[bytes],
+    css_content: Optional[bytes],
+) -> Optional[bytes]:
     """
     This function tries to insert the JS and CSS content into the default locations.
 
@@ -930,18 +932,18 @@ def _insert_js_css_to_default_locations(
         tag_name = match[0][2:6]
 
         # We target the first `</head>`, thus, after we set it, we skip the rest
-        if tag_name == "head":
+        if tag_name == b"head":
             if css_content is not None and first_end_head_tag_index is None:
                 first_end_head_tag_index = match.start()
 
         # But for `</body>`, we want the last occurrence, so we insert the content only
         # after the loop.
-        elif tag_name == "body":
+        elif tag_name == b"body":
             if js_content is not None:
                 last_end_body_tag_index = match.start()
 
         else:
-            raise ValueError(f"Unexpected tag name '{tag_name}'")
+            raise ValueError(f"Unexpected tag name '{tag_name.decode()}'")
 
     # Then do two string insertions. First the CSS, because we assume that <head> is before <body>.
     index_offset = 0
